@@ -2,6 +2,7 @@ package backend
 
 import (
 	"context"
+	"time"
 
 	"github.com/ProtonMail/gluon/connector"
 	"github.com/ProtonMail/gluon/imap"
@@ -45,6 +46,14 @@ func (c *verifCredConn) MarkMessagesFlagged(ctx context.Context, cache connector
 }
 func (c *verifCredConn) MarkMessagesForwarded(ctx context.Context, cache connector.IMAPStateWrite, messageIDs []imap.MessageID, forwarded bool) error {
 	return nil
+}
+
+var verifCredConnN int
+
+// CreateMessage: the remote side accepts an APPEND and returns the literal unchanged under a fresh remote id
+func (c *verifCredConn) CreateMessage(ctx context.Context, cache connector.IMAPStateWrite, mboxID imap.MailboxID, literal []byte, flags imap.FlagSet, date time.Time) (imap.Message, []byte, error) {
+	verifCredConnN++
+	return imap.Message{ID: imap.MessageID("rm-appended-" + string(rune('0'+verifCredConnN%10))), Flags: flags, Date: date}, literal, nil
 }
 
 // VerifInboxFlags: flags of the message each user's INBOX holds (set by a harness before it builds the backend).
